@@ -48,6 +48,8 @@ Jobs ==
     [] Family = "shift" -> {J(<<"shift", n, k, s>>, ShiftProg(n, k, s), NoBins) : n \in 1..3, k \in 0..5, s \in 1..2}
     [] Family = "exit" -> {J(<<"exit", kd, n, at>>, ExitProg(kd, n, at), NoBins) : kd \in {"REPT", "IRP", "WHILE", "MACRO", "MREPT"}, n \in 0..4, at \in 0..3}
     [] Family = "label" -> {J(<<"label", g, n, i>>, LabelProg(g, n, i), NoBins) : g \in BOOLEAN, n \in 1..3, i \in {"NONE", "REPT", "EMPTY", "EMPTYREPT"}}
+    [] Family = "scope" -> {J(<<"scope", o, i, n, pre>>, ScopeProg(o, i, n, pre), NoBins) :
+                              o \in ScopeOuters, i \in ScopeInners, n \in (IF Q THEN {0, 2} ELSE 0..3), pre \in BOOLEAN}
     [] Family = "incl" -> {J(<<"incl", d, v>>, InclProg(d, v), NoBins) : d \in 1..3, v \in BOOLEAN}
     [] Family = "bin" ->
          {J(<<"bin", sz, o, ln>>, BinProg(sz, o, ln), BinFile(sz)) :
